@@ -93,6 +93,7 @@ type StreamPlan struct {
 	Echo    bool  `json:"echo,omitempty"`  // server echoes every client message
 	Sizes   []int `json:"sizes,omitempty"` // sizes of client messages
 	PSizes  []int `json:"psizes,omitempty"`
+	Empty   int   `json:"empty,omitempty"` // every Empty-th message in each direction is the zero message (0 bytes under pb)
 	RBuf    int   `json:"rbuf,omitempty"` // capacity of the buffer handed to ReadMessage on both ends (0: nil)
 	Readers2 bool `json:"r2,omitempty"` // a second goroutine reads on each end (C10: every blocked reader is released)
 }
@@ -601,6 +602,9 @@ func (ss *StreamSvc) run(read func(*Msg) error, write func(*Msg) error) error {
 			sz = rec.Plan.PSizes[i]
 		}
 		m := &Msg{ID: id, Server: uint32(ss.k), Pad: MakePad(id, sz)}
+		if e := rec.Plan.Empty; e > 0 && (len(rec.SSent)+1)%e == 0 {
+			m, id = &Msg{}, 0
+		}
 		if err := write(m); err != nil {
 			rec.HandlerErr = err.Error()
 			return err
@@ -637,7 +641,7 @@ func (ss *StreamSvc) run(read func(*Msg) error, write func(*Msg) error) error {
 			rec.HandlerErr = err.Error()
 			return err
 		}
-		if int(m.Server) != ss.k {
+		if int(m.Server) != ss.k && !m.isZero() {
 			rec.Foreign++
 		}
 		if !PadOK(m.Pad, m.ID) {
@@ -648,6 +652,9 @@ func (ss *StreamSvc) run(read func(*Msg) error, write func(*Msg) error) error {
 		if rec.Plan.Echo {
 			id := m.ID | 1<<31
 			out := &Msg{ID: id, Server: uint32(ss.k), Pad: MakePad(id, len(m.Pad))}
+			if m.isZero() {
+				out, id = &Msg{}, 0 // the zero message is echoed as the zero message
+			}
 			if err := write(out); err != nil {
 				rec.HandlerErr = err.Error()
 				return err
